@@ -160,4 +160,24 @@ def _check_case(case):
             k = min(len(l1), len(l2))
             if k and np.abs(l2[:k] - l1[:k] * e * s).max() > 1e-6 * np.abs(l2[:k]).max():
                 fails.append(fail('similarity scaling (s,e,q) does not scale the buckling line loads by e*s', sig=None, case=case, seq=[s, e, q]))
+        # the same description reached by editing the entries of the user-supplied lists in place on ONE object (after an
+        # evaluation) must give what a freshly defined panel with these values gives
+        if case['triple'] == 0 and (case['m'], case['n']) != (9, 9):
+            s_, e_, q_ = 2.0, 0.5, 3.7
+            m2 = (mat[0] * e_, mat[1] * e_, mat[2], mat[3] * e_, mat[4] * e_, mat[5] * e_)
+            pu = Panel(a=0.6, b=0.4, stack=list(stack), plyts=[pan.PLYT] * len(stack), laminaprops=[tuple(mat)] * len(stack),
+                       m=case['m'], n=case['n'], mu=1500., **fl)
+            spectra(pu, tri)
+            pu.a, pu.b, pu.mu = 0.6 * s_, 0.4 * s_, 1500. * q_
+            for i in range(len(stack)):
+                pu.plyts[i] = pan.PLYT * s_
+                pu.laminaprops[i] = m2
+                pu.stack[i] = -stack[i]                 # mirrored angles as well (another equivalent description up to the sign of shear)
+            pf = Panel(a=0.6 * s_, b=0.4 * s_, stack=[-t for t in stack], plyts=[pan.PLYT * s_] * len(stack), laminaprops=[m2] * len(stack),
+                       m=case['m'], n=case['n'], mu=1500. * q_, **fl)
+            Mu, Mf = mats(pu, tri), mats(pf, tri)
+            for nm in Mu:
+                if np.abs(Mu[nm] - Mf[nm]).max() > 1e-12 * (np.abs(Mf[nm]).max() + 1e-300):
+                    fails.append(fail('%s of a panel whose ply lists were edited entry by entry differs from a freshly defined panel with the same values' % nm,
+                                      sig=None, case=case, rel=float(np.abs(Mu[nm] - Mf[nm]).max() / (np.abs(Mf[nm]).max() + 1e-300))))
     return dict(fails=fails[:5], execs=2, transitions=1, nontrivial=1)
